@@ -32,6 +32,12 @@ func (st *State) concreteIndex(i *Term, n int, what string) int {
 }
 
 func toIdx64(v Value, t types.Type) *Term {
+	if iv, ok := v.(IntV); ok {
+		if iv.T.IsConst() && iv.T.Big.IsInt64() {
+			return I64(iv.T.Big.Int64())
+		}
+		panic(abortSignal{"int mode: symbolic index"})
+	}
 	b := v.(BV).T
 	if b.S.W == 64 {
 		return b
